@@ -59,7 +59,7 @@ def main(n, seed):
     bad = 0
     for p, m in zip(progs, rm):
         ri = run_impl(p, family=rnd.choice(['int','str','tuple']), functional=rnd.random()<0.5)
-        d = [x for x in diff_results(p, ri, m) if not (x[1][0]=='nint' and x[2]=='EXC:KeyError') and not (x[1][0]=='deghist' and x[2]=='ValueError')]
+        d = [x for x in diff_results(p, ri, m) if not (x[1][0]=='nint' and x[2] in ('EXC:KeyError','KeyError')) and not (x[1][0]=='deghist' and x[2]=='ValueError')]
         if d:
             bad += 1
             if bad <= 5:
